@@ -67,24 +67,30 @@ def run_driver(chk, beh, label, flavour="plain"):
     # one driver process per batch of behaviours: a termination ends the batch, the rest is re-run
     todo = list(beh)
     batches = 0
+    base = 0            # behaviours of `beh` consumed by earlier batches (the driver numbers a batch's behaviours from 1)
     while todo and batches < 40:
         batches += 1
+        base = len(beh) - len(todo)
         script, trace = os.path.join(wd, "script%d.txt" % batches), os.path.join(wd, "trace%d.ndjson" % batches)
         open(script, "w").write("\n".join("\n".join(x) for x in todo) + "\n")
         rc, out = vlib.sh([b, script, trace, os.path.join(wd, "dir")], timeout=1500, check=False)
         events = vlib.read_ndjson(trace)
+        for e in events:
+            if e["op"] == "reset" and "bi" in e:
+                e["bi"] += base
+        crashed = ["# harness=inputs label=%s" % label] + ["SCRIPT " + ln for ln in beh[min(len(beh) - 1, base + max(sum(1 for e in events if e["op"] == "reset"), 1) - 1)]]
         if rc not in (0, 3):
             # sanitizer abort or crash: report with the operations executed so far
             kind = "sanitizer" if "Sanitizer" in out or "runtime error" in out else "killed-by-signal/SIGPIPE" if rc in (141, -13) else "killed-by-signal/%d" % (-rc if rc < 0 else rc - 128) if (rc < 0 or rc > 128) else "crash-rc%d" % rc
             if rc in (141, -13):
-                chk.report("C35.killed-by-signal/SIGPIPE", "the process hosting node and daemon was killed by SIGPIPE while a remote end disconnected", [str(e) for e in events[-6:]], replay_name="C35.sigpipe")
+                chk.report("C35.killed-by-signal/SIGPIPE", "the process hosting node and daemon was killed by SIGPIPE while a remote end disconnected", crashed + [str(e) for e in events[-6:]], replay_name="C35.sigpipe")
                 events_all += events
                 done = sum(1 for e in events if e["op"] == "reset")
                 todo = todo[max(done, 1):]
                 continue
             m = re.search(r"(AddressSanitizer|UndefinedBehaviorSanitizer|runtime error)[^\n]*", out)
             chk.report("C35.%s/%s" % (kind, (m.group(0)[:60] if m else "")), "driver died (rc=%d) while delivering remote input: %s" % (rc, out[-600:]),
-                       [str(e) for e in events[-6:]], replay_name="C35.%s" % kind)
+                       crashed + [str(e) for e in events[-6:]], replay_name="C35.%s" % kind)
         events_all += events
         done = sum(1 for e in events if e["op"] == "reset")
         todo = todo[done:] if rc in (0,) else todo[max(done, 1):]
@@ -100,7 +106,7 @@ def run_driver(chk, beh, label, flavour="plain"):
     for e in events_all:
         chk.nontrivial([e["op"], e.get("m"), e.get("k"), e.get("d"), e.get("out"), e.get("sock")])
     chk.sample({"source": label, "first_events": events_all[:8]})
-    vlib.report_trace_violations(chk, res, events_all, label=label)
+    vlib.report_trace_violations(chk, res, events_all, label=label, behaviours=beh, harness="inputs")
     log("[trace] %s: %d events, %d clause failures" % (label, len(events_all), len(res["viol"])))
 
 
@@ -139,3 +145,8 @@ def run(chk):
     chk.assumptions += ["signed adversarial messages are produced with the session key of a stub peer (an attacker who completed a handshake)",
                         "pre-handshake bytes on the transport listener are exercised by the C14/C20 socket drivers, not here",
                         "sanitizers (thorough tier) are monitors for the memory-safety part; the functional oracle is the trace contract"]
+
+
+def replay(chk, path):
+    harness, lines = vlib.read_replay(path)
+    run_driver(chk, [lines], "replay")
